@@ -136,7 +136,15 @@ fn run_generic<P: Protocol>(ctx: &Ctx, c: &Case) -> Vec<Viol> {
                             Dst::Broadcast => ([0xff; 6], None),
                             Dst::Own => (mac(at as u8, 2), Some(at)),
                         };
-                        (eth_frame(d, s, None, body.as_bytes()), s.to_vec(), d.to_vec(), owner)
+                        // host / 5 selects an 802.1Q tag: none, VLAN 0x67, VLAN 0x67 with priority bits, priority tag (VLAN 0)
+                        let tci: Option<u16> = [None, Some(0x0067), Some(0xa067), Some(0x6000)][(host / 5 % 4) as usize];
+                        let vid = tci.map(|t| t & 0x0fff).unwrap_or(0);
+                        let key = |m: [u8; 6]| {
+                            let mut k = if vid != 0 { vec![(vid >> 8) as u8, vid as u8] } else { vec![] };
+                            k.extend_from_slice(&m);
+                            k
+                        };
+                        (eth_frame(d, s, tci, body.as_bytes()), key(s), key(d), owner)
                     }
                 };
                 // reference: who is selected?
@@ -276,7 +284,7 @@ pub fn run_case(ctx: &Ctx, c: &Case) -> Vec<Viol> {
 
 fn op_strategy() -> impl Strategy<Value = Op> {
     prop_oneof![
-        10 => (0u8..5, prop_oneof![4 => (0u8..5).prop_map(Dst::Node), 2 => Just(Dst::Unknown), 1 => Just(Dst::Broadcast), 1 => Just(Dst::Own), 3 => (0u8..2).prop_map(Dst::Roaming)], 0u8..5).prop_map(|(at, dst, host)| Op::Read { at, dst, host }),
+        10 => (0u8..5, prop_oneof![4 => (0u8..5).prop_map(Dst::Node), 2 => Just(Dst::Unknown), 1 => Just(Dst::Broadcast), 1 => Just(Dst::Own), 3 => (0u8..2).prop_map(Dst::Roaming)], prop_oneof![3 => 0u8..5, 2 => 0u8..20]).prop_map(|(at, dst, host)| Op::Read { at, dst, host }),
         1 => (0u8..5, 0u8..4).prop_map(|(at, kind)| Op::Outsider { at, kind }),
     ]
 }
@@ -304,6 +312,9 @@ pub fn run(ctx: &Ctx) {
     alphabet.push(Op::Read { at: 1, dst: Dst::Unknown, host: 3 }); // ... then behind node 1
     alphabet.push(Op::Read { at: 2, dst: Dst::Roaming(0), host: 0 }); // node 2 sends to the roaming host
     alphabet.push(Op::Outsider { at: 1, kind: 1 });
+    alphabet.push(Op::Read { at: 0, dst: Dst::Unknown, host: 1 + 10 }); // host 1 behind node 0 speaks in VLAN 0x67 with priority bits
+    alphabet.push(Op::Read { at: 1, dst: Dst::Node(0), host: 10 }); // node 1 sends to it inside that VLAN, priority bits set
+    alphabet.push(Op::Read { at: 1, dst: Dst::Node(0), host: 5 }); // ... and without priority bits
     let depth: u32 = ctx.tier.pick(3, 4);
     let na = alphabet.len() as u64;
     for mode in [MeshMode::Router, MeshMode::Switch, MeshMode::Hub] {
